@@ -459,7 +459,15 @@ pub fn eval_declaration<'a>(
                     // Return a reference with associated value.
                     Some(value) => Expr::Reference(ident, value.into()),
                     // Break recursive evaluation signaled by an empty reference.
-                    None => Expr::Recursion(ident),
+                    None if decl.node().syntax().core_ref().is_recursive => {
+                        Expr::Recursion(ident)
+                    }
+                    // A reference that is not a recursion point, met again on a cycle
+                    // that is broken elsewhere, is evaluated in place.
+                    None => {
+                        let value = eval_any(ctx, decl.rhs(), rhs_ann.clone())?;
+                        Expr::Reference(ident, value.into())
+                    }
                 }
             };
             Ok((expr, rhs_ann))
